@@ -173,6 +173,10 @@ structure CtxState where
   last : BOut := .ok .nil       -- the outcome of the latest bind
   deriving Repr, Inhabited
 
+/-- the value sources of bindInternal's `binding.BindTo` call, in the order it lists them
+    (tied to app/context.go by `Tie.C04Bind.tie_app_source_order`) -/
+def appSourceKinds : List Tag := [.path, .query, .header, .cookie]
+
 /-- bindInternal on a struct destination -/
 def appBind (P : Params) (fs : List Fld) (init : Val) (h : Http) (strict : Bool) (st : CtxState) : CtxState :=
   match bindMulti P Cfg.default fs init h.params with
